@@ -1,10 +1,19 @@
-(* C10 - JSON sub-types are decided by top-level members.
-   PARTIAL in this revision: proved are the data obligations that tie the implementation's query tables
-   and child order to the hand-written specification constants; the path/query equation over the value
-   tree is not yet mechanised.  The property is decided on the implementation by the extracted
-   specification predicate subtype_spec (independent member splitter) on generated objects. *)
+(* C10 - JSON sub-types are decided by top-level members, wherever they appear.
+   Proved on the model, for every query table (C10_query_equation): scanning any value of the grammar within the
+   recursion cap succeeds, leaves the key-path stack as it found it (C10_path_balanced: the invariant whose
+   violation was defect D2) and sets querySatisfied to exactly the value's query-hit status, an attribute defined
+   over the grammar (Spec/JsonQuery.v): "some member at a query path has a listed text", a disjunction over
+   members and elements - hence independent of member order, of what siblings contain and of layout.
+   Instances for the three regenerated tables, on an object given as an arbitrary list of members (any layout,
+   any sibling values, any order): GeoJSON iff some top-level member is "type" with one of the nine names; HAR iff
+   some top-level "log" member is an object with a version / creator / entries member; glTF iff some top-level
+   "asset" member is an object whose "version" member is "1.0" or "2.0".  Child order under json gives the
+   priority geojson > har > gltf > plain json.
+   Tie to Go: json / c10 correspondence channels; subtype_spec (an independent member splitter) judges Detect. *)
 From Verif Require Import Base.Bytes Model.Types Model.Json Model.Detect Gen.TreeData Gen.Tables
-  Spec.JsonSubtype Spec.SpecQueries.
+  Spec.JsonSubtype Spec.SpecQueries Spec.JsonGrammar Spec.JsonGrammar8259 Spec.JsonQuery
+  Proofs.JsonPath Proofs.JsonQueryP.
+From Coq Require Import Lia.
 
 Theorem C10_queries_realise_spec :
   queries_of "geo"%string = spec_geo /\ queries_of "har"%string = spec_har /\ queries_of "gltf"%string = spec_gltf
@@ -25,6 +34,159 @@ Theorem C10_children_of_json :
                      (b "model/gltf+json", b ".gltf", "GLTF"%string)].
 Proof. vm_compute. reflexivity. Qed.
 Print Assumptions C10_children_of_json.
+
+(* the key-path stack is balanced over every successful scan (any table, cap, fuel, input) *)
+Theorem C10_path_balanced :
+  forall maxrec qs tk fuel w b lvl s r s', go maxrec qs tk fuel w b lvl s = (Some r, s') ->
+    match w with WAny => path s' = path s | WArr => path s' = tl (path s) | WObj => path s' = path s end /\
+    (qsat s = true -> qsat s' = true).
+Proof. exact go_path. Qed.
+Print Assumptions C10_path_balanced.
+
+(* querySatisfied after scanning a value = the value's query-hit status (or it was set before) *)
+Theorem C10_query_equation :
+  forall maxrec qs tk, qs <> [] ->
+  forall P d v h, QVal qs P d v h -> q_any maxrec qs tk P d v h.
+Proof. intros maxrec qs tk Hqs. exact (proj1 (q_all maxrec qs tk Hqs)). Qed.
+Print Assumptions C10_query_equation.
+
+(* every value of the grammar has a status at every path, and only one *)
+Theorem C10_status_total_functional :
+  forall qs, qs <> [] ->
+    (forall d v P, SVal d v -> exists h, QVal qs P d v h) /\
+    (forall P d1 d2 v h1 h2, QVal qs P d1 v h1 -> QVal qs P d2 v h2 -> h1 = h2).
+Proof.
+  intros qs Hqs. split.
+  - intros d v P Hv. exact (proj1 (Q_total qs) d v Hv P).
+  - intros. eapply Q_functional; eassumption.
+Qed.
+Print Assumptions C10_status_total_functional.
+
+(* ---- the three tables, on an object given as its list of members ---- *)
+Definition obj_doc (w endw : bytes) (ms : list member) (w2 : bytes) : bytes := w ++ (123%N :: render_tail endw ms) ++ w2.
+
+Lemma C10_family_is_status q qs :
+  queries_of q = qs -> qs <> [] ->
+  forall w endw ms w2 d limit, WS w -> WS endw -> WS w2 -> Forall (member_ok qs [] d) ms -> S d <= 4096 ->
+    (limit = 0 \/ N.of_nat (length (obj_doc w endw ms w2)) < limit)%N ->
+    json_family q tok_object (obj_doc w endw ms w2) limit = existsb (member_status qs []) ms.
+Proof.
+  intros Eq Hne w endw ms w2 d limit Hw He Hw2 Hms Hd Hlim. unfold json_family. rewrite Eq.
+  apply (json_query_whole maxrec qs tokens tok_object Hne) with (d := d); try assumption.
+  - vm_compute. discriminate.
+  - apply render_tail_Q; assumption.
+Qed.
+Print Assumptions C10_family_is_status.
+
+Lemma member_hit_false qs d m : member_ok qs [] d m -> (forall q, In q qs -> length (fst q) <= 1) -> m_hit m = false.
+Proof.
+  intros (_ & _ & _ & _ & _ & d1 & _ & Hq) Hlen. exact (proj1 (Q_deep qs) _ _ _ _ Hq Hlen).
+Qed.
+Print Assumptions member_hit_false.
+
+Theorem C10_geojson :
+  forall w endw ms w2 d limit, WS w -> WS endw -> WS w2 -> Forall (member_ok spec_geo [] d) ms -> S d <= 4096 ->
+    (limit = 0 \/ N.of_nat (length (obj_doc w endw ms w2)) < limit)%N ->
+    json_family "geo"%string tok_object (obj_doc w endw ms w2) limit =
+    existsb (fun m => beq (b "type") (m_key m) && existsb (fun name => beq (quoted name) (m_val m)) geo_types) ms.
+Proof.
+  intros w endw ms w2 d limit Hw He Hw2 Hms Hd Hlim.
+  rewrite (C10_family_is_status "geo"%string spec_geo) with (d := d); try assumption; [|vm_compute; reflexivity|discriminate].
+  clear Hlim. induction ms as [|m ms IH]; [reflexivity|]. inversion Hms as [|? ? Hm Hrest]; subst. cbn [existsb].
+  rewrite (IH Hrest). f_equal. unfold member_status.
+  rewrite (member_hit_false spec_geo d m Hm) by (intros q [<-|[]]; cbn; lia). rewrite orb_false_r.
+  unfold direct, spec_geo. cbn [query_path_match fst rev app lbeq].
+  destruct (beq (b "type") (m_key m)); [|reflexivity]. cbn [andb]. unfold text_hit. cbn [snd].
+  unfold geo_types. cbn [map existsb]. reflexivity.
+Qed.
+Print Assumptions C10_geojson.
+
+(* HAR: a top-level "log" member whose value is an object with a version, creator or entries member *)
+Theorem C10_har :
+  forall w endw ms w2 d limit, WS w -> WS endw -> WS w2 -> Forall (member_ok spec_har [] d) ms -> S d <= 4096 ->
+    (limit = 0 \/ N.of_nat (length (obj_doc w endw ms w2)) < limit)%N ->
+    json_family "har"%string tok_object (obj_doc w endw ms w2) limit =
+    existsb (fun m => beq (b "log") (m_key m) && m_hit m) ms.
+Proof.
+  intros w endw ms w2 d limit Hw He Hw2 Hms Hd Hlim.
+  rewrite (C10_family_is_status "har"%string spec_har) with (d := d); try assumption; [|vm_compute; reflexivity|discriminate].
+  clear Hlim. induction ms as [|m ms IH]; [reflexivity|]. inversion Hms as [|? ? Hm Hrest]; subst. cbn [existsb].
+  rewrite (IH Hrest). f_equal. unfold member_status.
+  rewrite direct_top_false by (intros q [<-|[<-|[<-|[]]]]; reflexivity). cbn [orb].
+  destruct (beq (b "log") (m_key m)) eqn:E; [reflexivity|]. cbn [andb].
+  destruct Hm as (_ & _ & _ & _ & _ & d1 & _ & Hq).
+  apply (second_level_other spec_har (m_key m)) with (d := d1) (v := m_val m); [|exact Hq].
+  intros q [<-|[<-|[<-|[]]]]; eexists _, _; (split; [reflexivity|exact E]).
+Qed.
+Print Assumptions C10_har.
+
+Theorem C10_har_log_value :
+  (forall d d' e2 ms2 h, WS e2 -> Forall (member_ok spec_har [b "log"] d) ms2 ->
+     QVal spec_har [b "log"] d' (123 :: render_tail e2 ms2)%N h ->
+     h = existsb (fun m2 => existsb (beq (m_key m2)) har_members) ms2) /\
+  (forall d v h, QVal spec_har [b "log"] d v h -> (forall t, v <> (123 :: t)%N) -> h = false).
+Proof.
+  split.
+  - intros d d' e2 ms2 h He Hms Hq. rewrite (inner_status spec_har [b "log"] d d' e2 ms2 h ltac:(discriminate) He Hms Hq).
+    clear Hq. induction ms2 as [|m ms IH]; [reflexivity|]. inversion Hms as [|? ? Hm Hrest]; subst. cbn [existsb].
+    rewrite (IH Hrest). f_equal. unfold member_status.
+    destruct Hm as (_ & _ & _ & _ & _ & d1 & _ & Hq).
+    rewrite (proj1 (Q_deep spec_har) _ _ _ _ Hq) by (intros q [<-|[<-|[<-|[]]]]; cbn; lia). rewrite orb_false_r.
+    unfold direct, spec_har, har_members. cbn [map query_path_match fst snd rev app lbeq existsb].
+    rewrite !andb_true_r. change (beq (b "log") (b "log")) with true. cbn [andb].
+    rewrite !(beq_sym _ (m_key m)).
+    destruct (beq (m_key m) (b "version")); [reflexivity|].
+    destruct (beq (m_key m) (b "creator")); [reflexivity|].
+    destruct (beq (m_key m) (b "entries")); reflexivity.
+  - intros d v h Hq Hno. eapply non_object_status; [|exact Hq|exact Hno]. intros q [<-|[<-|[<-|[]]]]; cbn; lia.
+Qed.
+Print Assumptions C10_har_log_value.
+
+(* glTF: a top-level "asset" member whose value is an object whose "version" member is "1.0" or "2.0" *)
+Theorem C10_gltf :
+  forall w endw ms w2 d limit, WS w -> WS endw -> WS w2 -> Forall (member_ok spec_gltf [] d) ms -> S d <= 4096 ->
+    (limit = 0 \/ N.of_nat (length (obj_doc w endw ms w2)) < limit)%N ->
+    json_family "gltf"%string tok_object (obj_doc w endw ms w2) limit =
+    existsb (fun m => beq (b "asset") (m_key m) && m_hit m) ms.
+Proof.
+  intros w endw ms w2 d limit Hw He Hw2 Hms Hd Hlim.
+  rewrite (C10_family_is_status "gltf"%string spec_gltf) with (d := d); try assumption; [|vm_compute; reflexivity|discriminate].
+  clear Hlim. induction ms as [|m ms IH]; [reflexivity|]. inversion Hms as [|? ? Hm Hrest]; subst. cbn [existsb].
+  rewrite (IH Hrest). f_equal. unfold member_status.
+  rewrite direct_top_false by (intros q [<-|[]]; reflexivity). cbn [orb].
+  destruct (beq (b "asset") (m_key m)) eqn:E; [reflexivity|]. cbn [andb].
+  destruct Hm as (_ & _ & _ & _ & _ & d1 & _ & Hq).
+  apply (second_level_other spec_gltf (m_key m)) with (d := d1) (v := m_val m); [|exact Hq].
+  intros q [<-|[]]; eexists _, _; (split; [reflexivity|exact E]).
+Qed.
+Print Assumptions C10_gltf.
+
+Theorem C10_gltf_asset_value :
+  (forall d d' e2 ms2 h, WS e2 -> Forall (member_ok spec_gltf [b "asset"] d) ms2 ->
+     QVal spec_gltf [b "asset"] d' (123 :: render_tail e2 ms2)%N h ->
+     h = existsb (fun m2 => beq (b "version") (m_key m2) && existsb (fun ver => beq (quoted ver) (m_val m2)) gltf_versions) ms2) /\
+  (forall d v h, QVal spec_gltf [b "asset"] d v h -> (forall t, v <> (123 :: t)%N) -> h = false).
+Proof.
+  split.
+  - intros d d' e2 ms2 h He Hms Hq. rewrite (inner_status spec_gltf [b "asset"] d d' e2 ms2 h ltac:(discriminate) He Hms Hq).
+    clear Hq. induction ms2 as [|m ms IH]; [reflexivity|]. inversion Hms as [|? ? Hm Hrest]; subst. cbn [existsb].
+    rewrite (IH Hrest). f_equal. unfold member_status.
+    destruct Hm as (_ & _ & _ & _ & _ & d1 & _ & Hq).
+    rewrite (proj1 (Q_deep spec_gltf) _ _ _ _ Hq) by (intros q [<-|[]]; cbn; lia). rewrite orb_false_r.
+    unfold direct, spec_gltf. cbn [query_path_match fst snd rev app lbeq].
+    rewrite !andb_true_r. change (beq (b "asset") (b "asset")) with true. cbn [andb].
+    destruct (beq (b "version") (m_key m)); [|reflexivity]. cbn [andb]. unfold text_hit, gltf_versions. cbn [snd map existsb]. reflexivity.
+  - intros d v h Hq Hno. eapply non_object_status; [|exact Hq|exact Hno]. intros q [<-|[]]; cbn; lia.
+Qed.
+Print Assumptions C10_gltf_asset_value.
+
+(* non-vacuity: a member list with siblings of every shape before the deciding member *)
+Example C10_members_example :
+  obj_doc [] [] [mk_member [] (b "accessors") [] [] (b "[1]") [] false;
+                 mk_member [32%N] (b "asset") [] [32%N] (b "{""version"":""2.0""}") [10%N] true] []
+  = b "{""accessors"":[1], ""asset"": {""version"":""2.0""}
+}".
+Proof. vm_compute. reflexivity. Qed.
 
 Example C10_sibling_array_then_gltf :
   json_family "gltf"%string tok_object (b "{""accessors"":[1],""asset"":{""version"":""2.0""}}") 0 = true
